@@ -495,6 +495,26 @@ def pool(seed, tier, strategies=None, n_fast=None, n_slow=None, inject=False, fe
                                                             "grid_connector_id": "GC1", "target": t_, "window": True}
                                                            for h, t_ in ((0, rng13.choice([2, 1.5])), (2, 5), (4, rng13.choice([2.5, 1])))]}}
                 recs.append(run_record(js, "schedule", {"LOAD_STRAT": "collective", "ALLOW_NEGATIVE_SOC": True}, time_limit=15))
+        if "peak_load_window" in strategies:
+            # D15: peak_load_window with TWO stationary batteries (different SoC) behind one connector (round-4 seed C06-s10: per-battery
+            # look-ahead state must stay per battery)
+            rng15 = random.Random("pool-d15/%d" % seed)
+            start15 = datetime.datetime.fromisoformat("2023-01-03T05:00:00" + scen.TZ)
+            js = {"scenario": {"start_time": scen.iso(start15), "interval": 60, "n_intervals": 8},
+                  "components": {
+                      "vehicle_types": {"t": {"name": "t", "capacity": 60, "charging_curve": [[0, 11], [1, 11]]}},
+                      "vehicles": {"v1": {"vehicle_type": "t", "soc": 0.3, "desired_soc": 0.9, "connected_charging_station": "cs1",
+                                          "estimated_time_of_departure": scen.iso(start15 + datetime.timedelta(hours=7))}},
+                      "grid_connectors": {"GC1": {"max_power": 60, "voltage_level": "MV", "grid_operator": "default_grid_operator",
+                                                  "cost": {"type": "fixed", "value": 0.1}}},
+                      "charging_stations": {"cs1": {"max_power": 11, "parent": "GC1"}},
+                      "batteries": {"BAT1": {"parent": "GC1", "capacity": 100, "soc": rng15.choice([0.2, 0.3]), "charging_curve": [[0, 20], [1, 20]]},
+                                    "BAT2": {"parent": "GC1", "capacity": 50, "soc": rng15.choice([0.8, 0.9]), "charging_curve": [[0, 10], [1, 10]]}},
+                      "photovoltaics": {}},
+                  "events": {"grid_operator_signals": [], "local_generation": {}, "vehicle_events": [],
+                             "fixed_load": {"b": {"start_time": scen.iso(start15), "step_duration_s": 3600, "grid_connector_id": "GC1",
+                                                  "values": [5, 5, 20, 25, 25, 10, 5, 5]}}}}
+            recs.append(run_record(js, "peak_load_window", {"time_windows": tw_file(tmp, rng15, start15), "ALLOW_NEGATIVE_SOC": True}, time_limit=40))
         # intervals that do not divide an hour (round-3 seed C18-s8: per-hour scaling of the aggregates)
         rng_odd = random.Random("pool-odd/%d" % seed)
         for k_odd in range(3 if tier == "quick" else 9):
